@@ -174,6 +174,35 @@ def containers(n, x, b):
     out.xs.append(None); out.d["new"] = None
     return src == SCont(xs=[x] * n, ys={b}, zs=[[x]] * n, d={"k": x})
 
+# coercers aimed at a generic position: dict keys (0), dict values (1), list elements (0)
+@dataclasses.dataclass
+class SGen:
+    d: Dict[str, int]
+    l: List[int]
+    dd: Dict[str, Dict[str, int]]
+@dataclasses.dataclass
+class DGen:
+    d: Dict[str, int]
+    l: List[int]
+    dd: Dict[str, Dict[str, int]]
+def g_val(v): return v * 2 + 1
+def g_key(k): return k + "!"
+def g_el(v): return v * 3 + 1
+C_GVAL = R.get_converter(SGen, DGen, recipe=[coercer(P[dict].generic_arg(1, int), P[dict].generic_arg(1, int), g_val)])
+C_GKEY = R.get_converter(SGen, DGen, recipe=[coercer(P[dict].generic_arg(0, str), P[dict].generic_arg(0, str), g_key)])
+C_GEL = R.get_converter(SGen, DGen, recipe=[coercer(P[list].generic_arg(0, int), P[list].generic_arg(0, int), g_el)])
+C_GALL = R.get_converter(SGen, DGen, recipe=[coercer(P[dict].generic_arg(1, int), P[dict].generic_arg(1, int), g_val), coercer(P[dict].generic_arg(0, str), P[dict].generic_arg(0, str), g_key),
+                                             coercer(P[list].generic_arg(0, int), P[list].generic_arg(0, int), g_el)])
+def generic_pos(n, x, y):
+    n = pick(n, 3)
+    def mk(): return SGen(d={"k%d" % i: x + i for i in range(n)}, l=[y] * n, dd={"o": {"i%d" % i: y - i for i in range(n)}})
+    s, snap = mk(), mk()
+    ident_k, ident_v = (lambda k: k), (lambda v: v)
+    def exp(fk, fv, fe):
+        return DGen(d={fk(k): fv(v) for k, v in s.d.items()}, l=[fe(v) for v in s.l], dd={fk(o): {fk(k): fv(v) for k, v in inner.items()} for o, inner in s.dd.items()})
+    return (C_GVAL(s) == exp(ident_k, g_val, ident_v) and C_GKEY(s) == exp(g_key, ident_v, ident_v) and C_GEL(s) == exp(ident_k, ident_v, g_el)
+            and C_GALL(s) == exp(g_key, g_val, g_el) and s == snap)
+
 SIG_OK = (inspect.signature(conv_param) == inspect.signature(stub_sig) and conv_param.__name__ == "conv_param")
 '''
 
@@ -413,6 +442,8 @@ def build(tier, seed):
          bounds="nested model, Optional[model], List[model], Dict[str, model], List->Sequence (tuple); containers of length <=2; from_param to a nested field")
     m.ob("containers_fresh", "n: int, x: int, b: bool", "return containers(n, x, b)", pre=["0 <= n <= 2"], timeout=tmo, family=fam,
          bounds="List[int]->List[Optional[int]], Set[bool]->Set[int], List[List[int]]->List[List[Any]], Dict[str,int]->Dict[str,Optional[int]]; results share no container with the source")
+    m.ob("generic_positions", "n: int, x: int, y: int", "return generic_pos(n, x, y)", pre=["0 <= n <= 2"], timeout=tmo, family=fam,
+         bounds="coercers aimed at dict keys / dict values / list elements by generic_arg position, also inside a nested dict; container length <= 2, symbolic ints")
     m.ob("signature", "x: int", "return SIG_OK", timeout=30, family=fam, bounds="impl_converter preserves the stub's signature")
     mf = Module("c13_family").pre(FAMILY)
     mf.ob("family_creation", "x: int", "return not CERR", timeout=30, family="converter program family", bounds="creation of every program either succeeds or is refused with ProviderNotFoundError")
